@@ -150,6 +150,14 @@ def make_transformer(kind):
     return type("LT", (ASTTransformer,), {"transform": tr})()
 
 
+class Loud(str):
+    """A value that is == to the plain string (and hashes alike) but PRINTS differently: content ids are built from the
+    printed value, dataclass equality from ==."""
+
+    def __str__(self):
+        return "loud:" + str.__str__(self)
+
+
 class Model:
     def __init__(self, mode: str, universe: str = "full", precalc: bool = False):
         self.mode = mode
@@ -189,6 +197,7 @@ class Model:
                 n = nodes[r]
                 if isinstance(n, LL):
                     ops.append(("rep_v", r))
+                    ops.append(("rep_v_lookalike", r))
                 if isinstance(n, LI):
                     ops += [("rep_opt_none", r), ("rep_tup_empty", r), ("rep_tup_rev", r), ("rep_tup_dupfirst", r), ("rep_lst_empty", r)]
                     for r2 in R:
@@ -254,6 +263,8 @@ class Model:
         n = nodes[op[1]] if len(op) > 1 and k != "drop" else None
         if k == "rep_v":
             return n.replace(v="b" if n.v == "a" else "a")
+        if k == "rep_v_lookalike":
+            return n.replace(v=Loud(n.v))
         if k == "rep_opt_none":
             return n.replace(opt=None)
         if k == "rep_opt":
@@ -396,7 +407,8 @@ class Model:
                 rec.violation(sg, case, msg, instance=_inst(self.universe, hist, op, sg, msg))
             if errs:
                 return "viol"
-        return "ok"
+        # a leaf value replaced by one that is == but prints differently is a one-step look-ahead: judged, not expanded
+        return "probe" if op[0] == "rep_v_lookalike" else "ok"
 
 
 def precondition_facts(op, nodes):
